@@ -25,8 +25,8 @@ def nm(ex, v):
     return getattr(v, "name", None) or type(v).__name__
 
 
-def m1_tip_switch(S):
-    ob = "C01.m1"
+def m1_tip_switch(S, ob="C01.m1", hook=None):
+    """`hook`: when given (C02.m6 re-uses this execution of verify_block), it receives the local variables after the run and the C01 clauses are not emitted"""
     ctx = S.ctx()
     ctx.uninterpreted_unknown_calls = True
     ctx.max_paths = 4000
@@ -111,6 +111,8 @@ def m1_tip_switch(S):
     already = T.and_(own_ext_known.t, T.eq(T.var(vsome[0]), 1)) if vsome else False
     admitted = T.and_(T.not_(parent_invalid.t), pext_known.t, T.not_(already), T.not_(parent_failed.t))
     better = T.gt(cannon, cur.t)
+    if hook is not None:
+        return hook(dict(locals()))
     S.prove(ctx, ob, "switches_iff_strictly_more_work", pre, T.iff(when("find_fork"), T.and_(admitted, better, res["insert_epoch_index"].t, T.or_(T.not_(ctx.bool("new_epoch").t), res["insert_epoch_ext"].t))))
     S.prove(ctx, ob, "equal_work_keeps_the_current_tip", pre + [T.eq(cannon, cur.t)], T.not_(T.or_(when("find_fork"), when("insert_tip"), when("store_snapshot"))))
     any_write = T.or_(*[when(t) for t in ("insert_epoch_index", "insert_epoch_ext", "insert_tip", "insert_cur_epoch", "insert_block_ext", "commit", "store_snapshot", "find_fork")])
